@@ -55,6 +55,12 @@ fn main() {
 }
 
 fn report_violation(cfg: &RunCfg, v: Violation, stats: &Stats, t0: std::time::Instant) -> i32 {
+    if v.fail.clause.starts_with("harness") {
+        // a failure the harness attributes to itself is never a finding
+        println!("INCONCLUSIVE property={}: the harness could not carry out a case: {}", cfg.id, v.fail.detail);
+        let _ = (stats, t0);
+        return 2;
+    }
     let sig = violation_signature(&v.replay);
     if let Some((_, what)) = known_findings(&cfg.id).into_iter().find(|(s, _)| *s == sig) {
         // a listed finding: reported, not an alarm (DESIGN.md §3.7)
